@@ -129,7 +129,7 @@ func (e *dbhistEngine) Property() string { return "C09" }
 
 func (e *dbhistEngine) Plan(seed uint64, tier string) int {
 	if tier == "thorough" {
-		return 3000000
+		return 10000000
 	}
 	return 160000
 }
